@@ -67,6 +67,13 @@ func genLight(r *Rand, mode string) *Project {
 	names := []string{"root.jst", "b.jst", "d/c.jst", "d/e/f.jst", "g.jst", "d/h.jst"}
 	nf := r.Range(2, 5)
 	names = names[:nf+1]
+	if r.Chance(1, 3) {
+		// siblings whose names differ only in case are different files (on a case-sensitive file system)
+		names = append(names, []string{"B.jst", "d/C.jst", "G.JST", "B.JST"}[r.Intn(4)])
+		if r.Chance(1, 2) {
+			names = append(names, "d/e/F.jst")
+		}
+	}
 	// which file may include which: only same directory or below
 	canInclude := func(from, to string) (string, bool) {
 		d := path.Dir(from)
@@ -368,5 +375,108 @@ func genMacroGraph(r *Rand) *Project {
 		fmt.Fprintf(&sb, "PASTE @g%d\n", r.Intn(n))
 	}
 	p.Files = []GenFile{{Path: "root.jst", Data: []byte(sb.String())}}
+	return p
+}
+
+
+// richDoc: one small document that uses every lexical construct of the language (all
+// directive kinds, # and ### comments, // and /* */ annotations, quoted parameters with
+// escapes, explicit contexts, jsight / regex / enum / text bodies). The C01 "truncate" phase
+// cuts it at EVERY byte offset, in three line-ending conventions, optionally followed by one
+// extra byte - the crash-consistency habit of "a fault at every point", aimed at the scanner.
+const richDoc = `JSIGHT 0.3
+# line comment
+### block
+comment ###
+INFO # about
+  Title "Rich \"API\" \\ doc"
+  Version 1.0
+  Description
+    Some text.
+
+    More text (with parens) and a # hash.
+SERVER @main /* multi
+line */
+  BaseUrl "https://example.com/"
+TAG @t1 // tag one
+  Description
+    tag text
+  TAG @t2
+TYPE @cat // a cat
+  {
+    "id": 1, // {min: 0} - note
+    "name": "Tom", /* block note */
+    "kind": "a", // {enum: @kinds}
+    "tail": @tail, // {optional: true}
+    "tags": ["x", "y"]
+  }
+TYPE @tail regex
+  /[a-z]{2,4}-\/[0-9]+/
+ENUM @kinds
+  [
+    "a", // first
+    "b"
+  ]
+URL /cats/{id}
+(
+  Path
+    {"id": 1}
+  GET // read
+    Tags @t1 @t2
+    OperationId getCat
+    Query "a=1&b=2" htmlFormEncoded
+      {"a": 1}
+    200 @cat
+    404 any
+    PASTE @errors
+  POST
+    Request
+      Headers
+        {"X-Token": "abc"}
+      Body
+        @cat
+    201
+      Headers
+        {"Location": "x"}
+      Body regex
+        /ok/
+)
+URL /rpc
+  Protocol json-rpc-2.0
+  Method ping // ping
+    Params
+      [1, 2]
+    Result
+      true
+DELETE /cats/{id}/tail
+  204 empty
+  INCLUDE inc.jst
+MACRO @errors
+(
+  500
+    { // {additionalProperties: true}
+      "error": "x"
+    }
+)
+INCLUDE "inc2.jst" # trailing comment
+`
+
+func truncateCount() int { return (len(richDoc) + 1) * 3 * 4 }
+
+func genTruncated(index int) *Project {
+	n := len(richDoc) + 1
+	off := index % n
+	conv := (index / n) % 3
+	extra := (index / n / 3) % 4
+	doc := richDoc[:off]
+	switch conv {
+	case 1:
+		doc = strings.ReplaceAll(doc, "\n", "\r\n")
+	case 2:
+		doc = strings.ReplaceAll(doc, "\n", "\r")
+	}
+	doc += []string{"", "\\", "\"", "/"}[extra]
+	p := &Project{Kind: "truncated-rich-document", Root: "root.jst", Name: fmt.Sprintf("truncate@%d/%d/%d", off, conv, extra)}
+	p.Files = []GenFile{{Path: "root.jst", Data: []byte(doc)}, {Path: "inc.jst", Data: []byte("502 any\n")}, {Path: "inc2.jst", Data: []byte("TAG @t3\n")}}
 	return p
 }
